@@ -24,8 +24,8 @@ import re
 
 from vf.core import Check, REPO, HarnessError
 
-MODULES = ["Model.Ident", "Model.Schema", "Model.SchemaMemo", "Model.SchemaTree", "Model.SchemaFull",
-           "Proofs.Schema", "Proofs.SchemaMemo", "Proofs.SchemaTree", "Proofs.SchemaFull",
+MODULES = ["Model.Ident", "Model.Schema", "Model.SchemaMemo", "Model.SchemaTree", "Model.SchemaFull", "Model.SchemaHash",
+           "Proofs.Schema", "Proofs.SchemaMemo", "Proofs.SchemaTree", "Proofs.SchemaFull", "Proofs.SchemaHash",
            "Generated.C18", "Properties.C18"]
 P = "SqlglotModel.Properties.C18."
 THEOREMS = [P + n for n in [
@@ -49,6 +49,13 @@ THEOREMS = [P + n for n in [
     # constructor path
     "constructor_eq_incremental", "constructor_answers_eq_incremental", "constructor_merge_witness", "nested_set_col_refines",
     "stepN_inv", "answerN_eq_of_same_mapping",
+    # find-cache key, per-call overrides in every key, expression-keyed caches and cached hashes
+    "generated_find_cache_key_ok", "find_cache_raise_irrelevant", "generated_option_overrides_in_every_key",
+    "expression_keys_are_content_keys", "rename_via_api_fresh", "find_via_api_transparent", "stale_hash_witness",
+    "generated_rename_invalidates_hash",
+    # the real constructor loop refines ctorFlat; helper laws
+    "constructor_refines_flat", "full_refines_fresh_from_raw_constructor", "raw_constructor_answers_eq_incremental",
+    "nested_get_set_same", "nested_get_set_other", "dict_depth_nested_set", "flatten_after_set_mem",
 ]]
 
 
@@ -213,6 +220,58 @@ def type_cache_layout(cls):
     return lays[0], reads
 
 
+def find_cache_layout(cls):
+    fn = _fn(cls, "find")
+    assigns = _assignments(fn)
+    gets, sets = _cache_uses(fn, "_find_cache")
+    if len(gets) != 1 or len(sets) != 1:
+        raise Shape("find: expected one cache lookup and one cache store")
+    names = {"table": "table", "raise_on_missing": "raise", "ensure_data_types": "ensure"}
+
+    def field(e):
+        if isinstance(e, ast.Name) and e.id in names:
+            return names[e.id]
+        raise Shape(f"find: unknown key component {ast.unparse(e)}")
+
+    lay_get = [field(e) for e in _key_elems(gets[0], assigns)]
+    lay_set = [field(e) for e in _key_elems(sets[0], assigns)]
+    if lay_get != lay_set:
+        raise Shape("find: lookup key and store key differ")
+    used = set()
+    for node in ast.walk(fn):
+        if isinstance(node, ast.Name) and isinstance(node.ctx, ast.Load) and node.id in names:
+            used.add(node.id)
+    reads = [f for p, f in names.items() if p in used]
+    return lay_get, reads
+
+
+def table_rename_keeps_hash(tree, cls):
+    """does `_normalize_table` (or the helpers it renames parts with) write `node.args[...] = …` directly, i.e.
+    outside the hash-invalidating set / replace API?"""
+    fns = [_fn(cls, "_normalize_table"), _fn(cls, "_normalize_name")]
+    fns += [n for n in tree.body if isinstance(n, ast.FunctionDef) and n.name == "normalize_name"]
+    direct = api = 0
+    for fn in fns:
+        for node in ast.walk(fn):
+            tgts = []
+            if isinstance(node, ast.Assign):
+                tgts = node.targets
+            elif isinstance(node, (ast.AugAssign, ast.AnnAssign)):
+                tgts = [node.target]
+            for t in tgts:
+                for sub in ast.walk(t):
+                    if isinstance(sub, ast.Attribute) and sub.attr in ("args", "_hash", "this"):
+                        direct += 1
+            if isinstance(node, ast.Call) and isinstance(node.func, ast.Attribute):
+                if node.func.attr in ("replace", "set"):
+                    api += 1
+                if node.func.attr in ("update", "__setitem__", "pop", "setdefault") and isinstance(node.func.value, ast.Attribute) and node.func.value.attr == "args":
+                    direct += 1
+    if not direct and not api:
+        raise Shape("_normalize_table: cannot see how the table parts are renamed")
+    return bool(direct)
+
+
 def eviction_policy(cls):
     fn = _fn(cls, "add_table")
     clears = pops = 0
@@ -250,6 +309,8 @@ DEFAULT_LAYOUT = {
     "name": (["name", "quoted", "dialect", "isTable", "normalize"], ["name", "quoted", "dialect", "isTable", "normalize"]),
     "table": (["table", "dialect", "normalize"], ["table", "dialect", "normalize"]),
     "type": (["tyStr"], ["tyStr", "dialect"]),
+    "find": (["table", "ensure"], ["table", "raise", "ensure"]),
+    "rename_keeps_hash": True,
 }
 
 
@@ -261,7 +322,8 @@ def translate(chk: Check) -> str:
     if cls is None:
         chk.broken.append({"kind": "translator", "what": "C18 translator: structure changed: class MappingSchema not found"})
     else:
-        for key, fn in (("policy", eviction_policy), ("name", name_cache_layout), ("table", table_cache_layout), ("type", type_cache_layout)):
+        for key, fn in (("policy", eviction_policy), ("name", name_cache_layout), ("table", table_cache_layout), ("type", type_cache_layout),
+                        ("find", find_cache_layout), ("rename_keeps_hash", lambda c: table_rename_keeps_hash(tree, c))):
             try:
                 lay[key] = fn(cls)
             except Shape as e:
@@ -269,7 +331,8 @@ def translate(chk: Check) -> str:
             except Exception as e:  # noqa
                 chk.broken.append({"kind": "translator", "what": f"C18 translator: structure changed: {type(e).__name__}: {e}"})
     chk.cov["eviction_policy"] = lay["policy"]
-    chk.cov["cache_key_layouts"] = {k: {"key": lay[k][0], "reads": lay[k][1]} for k in ("name", "table", "type")}
+    chk.cov["cache_key_layouts"] = {k: {"key": lay[k][0], "reads": lay[k][1]} for k in ("name", "table", "type", "find")}
+    chk.cov["table_rename_keeps_hash"] = lay["rename_keeps_hash"]
 
     def ll(xs):
         return "[" + ", ".join("." + x for x in xs) + "]"
@@ -286,6 +349,9 @@ def translate(chk: Check) -> str:
         f"def tableCacheReads : List TField := {ll(lay['table'][1])}\n"
         f"def typeCacheKey : List YField := {ll(lay['type'][0])}\n"
         f"def typeCacheReads : List YField := {ll(lay['type'][1])}\n"
+        f"def findCacheKey : List FField := {ll(lay['find'][0])}\n"
+        f"def findCacheReads : List FField := {ll(lay['find'][1])}\n"
+        f"def tableRenameKeepsHash : Bool := {'true' if lay['rename_keeps_hash'] else 'false'}\n"
         "end SqlglotModel.Generated.C18\n"
     )
 
@@ -357,6 +423,12 @@ def uncached_type(ty: str, dialect) -> str:
 def ident_sql(name, quoted, dialect):
     _, exp, *_ = sg()
     return exp.to_identifier(name, quoted=quoted).sql(dialect=dialect)
+
+
+def cols_text(cols, render) -> str:
+    """the `"a: INT, b: TEXT"` form of a column mapping, with irregular blanks"""
+    seps = [": ", ":", " : ", ":  "]
+    return " , ".join(render(c[0], c[1]) + seps[(len(c[0]) + i) % 4] + ty for i, (c, ty) in enumerate(cols)).replace(" , ", ", ", 1)
 
 
 def show_names(l):
@@ -472,9 +544,27 @@ class Real:
             else:
                 table = self.table_obj(op["table"], op.get("reuse", False))
             if kind == "add":
-                cm = {ident_sql(c[0], c[1], dd): ty for c, ty in op["cols"]}
+                form = op.get("cols_form", "dict")
+                if form == "str":
+                    cm = cols_text(op["cols"], lambda nm, q: ident_sql(nm, q, dd))
+                elif form == "none":
+                    cm = None
+                else:
+                    cm = {ident_sql(c[0], c[1], dd): ty for c, ty in op["cols"]}
                 s.add_table(table, cm, dialect=d, normalize=n)
                 return "ok"
+            if kind == "opt":
+                # an optimizer caller: qualify + annotate_types read the schema through column_names / get_column_type
+                from sqlglot import parse_one
+                from sqlglot.optimizer.qualify import qualify
+                from sqlglot.optimizer.annotate_types import annotate_types
+
+                tsql = ".".join(ident_sql(nm, q, self.dialect) for nm, q in op["table"])
+                proj = ", ".join(ident_sql(c[0], c[1], self.dialect) for c in op["cols"]) or "*"
+                e = parse_one(f"SELECT {proj} FROM {tsql}", dialect=self.dialect)
+                e = qualify(e, schema=s, dialect=self.dialect, validate_qualify_columns=op.get("validate", True))
+                e = annotate_types(e, schema=s, dialect=self.dialect)
+                return "opt " + e.sql(dialect=self.dialect) + " :: " + ",".join(canon_type(x.type) if x.type else "-" for x in e.selects)
             if kind == "names":
                 return "names " + show_names(list(s.column_names(table, only_visible=op.get("ov", False), dialect=d, normalize=n)))
             c = op["col"]
@@ -523,14 +613,25 @@ def rand_cols(rng, ascii_only=True):
     return [[rand_ident(rng, COLS, ascii_only), rng.choice(TYPES)] for _ in range(k)]
 
 
-def rand_op(rng, depth, dialects, ascii_only=True, p_add=0.33, p_dialect=0.25, visible=False):
+def rand_op(rng, depth, dialects, ascii_only=True, p_add=0.33, p_dialect=0.25, visible=False, p_opt=0.0):
     r = rng.random()
     op: dict = {}
+    if p_opt and rng.random() < p_opt:
+        k = rng.choice([0, 1, 2])
+        return {"op": "opt", "table": rand_table(rng, depth, True, ascii_only), "validate": rng.random() < 0.7,
+                "cols": [rand_ident(rng, COLS, ascii_only) for _ in range(k)]}
     if r < p_add:
         op["op"] = "add"
         # mostly the right depth; sometimes wrong (must raise the depth error and change nothing)
         op["table"] = rand_table(rng, depth, partial_ok=rng.random() < 0.12, ascii_only=ascii_only)
         op["cols"] = rand_cols(rng, ascii_only)
+        # column_mapping forms: dict (default), the "a: INT, b: TEXT" string, None
+        r2 = rng.random()
+        if r2 < 0.2 and op["cols"]:
+            op["cols_form"] = "str"
+        elif r2 < 0.3:
+            op["cols_form"] = "none"
+            op["cols"] = []
     elif r < p_add + 0.22:
         op["op"] = "names"
         op["table"] = rand_table(rng, depth, True, ascii_only)
@@ -721,10 +822,16 @@ def to_model_line(op, default_dialect, default_norm):
     base = {"op": op["op"], "d": dref(op.get("dialect_arg"), default_dialect), "norm": default_norm if n is None else n,
             "table": op["table"], "as_str": bool(op.get("as_str"))}
     if op["op"] == "add":
-        dd: dict = {}
-        for (nm, q), ty in op["cols"]:
-            dd[canon_text(nm, q)] = ty
-        base["cols"] = [[k, v] for k, v in dd.items()]
+        form = op.get("cols_form", "dict")
+        if form == "str":
+            base["cols_str"] = cols_text(op["cols"], canon_text)
+        elif form == "none":
+            base["cols"] = None
+        else:
+            dd: dict = {}
+            for (nm, q), ty in op["cols"]:
+                dd[canon_text(nm, q)] = ty
+            base["cols"] = [[k, v] for k, v in dd.items()]
     elif op["op"] == "names":
         base["ov"] = bool(op.get("ov", False))
     else:
@@ -963,7 +1070,7 @@ def oracle_history(h, type_cache_off=False):
         if type_cache_off_now:
             adds_only.s._type_mapping_cache.clear()
         ra = real.apply(op, schema=adds_only.s)
-        if r.startswith("err internal"):
+        if r.startswith("err internal") and op["op"] != "opt":
             return i, f"lookup leaked {r}"
         if r != rf:
             return i, f"{op['op']} answered {r!r}; a fresh schema over the same mapping answers {rf!r}"
@@ -1110,7 +1217,7 @@ def search(chk: Check, hints: list, budget_s: float) -> None:
             # half of the histories use one dialect throughout (per-call overrides of the type parser are a known finding)
             p_dialect = 0.25 if rng.random() < 0.5 else 0.0
             ops = [rand_op(rng, depth, dialects if rng.random() < 0.5 else [d or "duckdb"], ascii_only=ascii_only, p_dialect=p_dialect,
-                           visible=visible is not None) for _ in range(rng.randint(2, 30))]
+                           visible=visible is not None, p_opt=0.08) for _ in range(rng.randint(2, 30))]
         finally:
             SHARE_NAMES[0] = False
         consider((d, norm, init, ops, raw, visible))
